@@ -284,6 +284,8 @@ impl FragmentationMap {
 }
 impl Version {
     fn gc_stats(&self) -> (r: &FragmentationMap) ensures r == &*self.gc_stats { &self.gc_stats }
+    #[verifier::external_body]
+    fn blob_file_count(&self) -> (r: usize) ensures r == self.blob_files.view().dom().len() { unimplemented!() }
 }
 struct Tree { v: Version }
 impl Tree { fn current_version(&self) -> (r: &Version) ensures r == &self.v { &self.v } }
@@ -300,7 +302,7 @@ fn blob_tree_open_first_id(index: &Tree) -> (r: u64)
         // ... and above every id that still has garbage statistics recorded (a new blob file never inherits an entry)
         forall|id: u64| #[trigger] index.v.gc_stats.view().contains_key(id) ==> id < r,
 {
-//@ FROM src/blob_tree/mod.rs :: impl BlobTree :: fn open :: STMTS `let version =` .. `let blob_file_id_to_continue_with =` :: OBL C09.6
+//@ FROM src/blob_tree/mod.rs :: impl BlobTree :: fn open :: STMTS `>fsync_directory ( & blobs_folder )` .. `let blob_file_id_to_continue_with =` :: OBL C09.6, C04.5
     let version = index.current_version();
 
     let blob_file_id_to_continue_with = version
